@@ -19,6 +19,7 @@ import (
 	"time"
 
 	"github.com/jech/storrent/config"
+	"github.com/jech/storrent/peer"
 	"verifharness/fixture"
 	"verifharness/refwire"
 	"verifharness/swarm"
@@ -123,6 +124,60 @@ func hostile(rng *rand.Rand, g *fixture.Geo, r *swarm.Remote) hmsg {
 		default:
 			return enc(refwire.Msg{Kind: refwire.KHaveNone}, "targeted havenone")
 		}
+	}
+	if !r.Tr.T.InfoComplete() && r.Opt.Fast && rng.IntN(6) == 0 {
+		// before the metadata is known nothing can be range-checked: allowed-fast indices at and around the
+		// piece count that the torrent will turn out to have, have-all, and then the true metadata
+		info := g.Info()
+		var b []byte
+		for _, ix := range []uint32{np, np - 1, np + 1, 0} {
+			b = append(b, refwire.Encode(refwire.Msg{Kind: refwire.KAllowedFast, Index: ix})...)
+		}
+		b = append(b, refwire.Encode(refwire.Msg{Kind: refwire.KHaveAll})...)
+		S := int64(len(info))
+		e := swarm.StdExt0(0, 0)
+		e.MetadataSize = &S
+		b = append(b, refwire.Encode(refwire.Msg{Kind: refwire.KExtended, Sub: 0, Data: e.Payload()})...)
+		for ix := 0; ix*16384 < len(info); ix++ {
+			end := (ix + 1) * 16384
+			if end > len(info) {
+				end = len(info)
+			}
+			m := refwire.Meta{Type: 1, Piece: int64(ix), Data: info[ix*16384 : end], TotalSize: &S}
+			b = append(b, refwire.Encode(refwire.Msg{Kind: refwire.KExtended, Sub: extID("ut_metadata", 2), Data: m.Payload()})...)
+		}
+		return hmsg{b, "allowed-fast around the piece count, then true metadata"}
+	}
+	if !r.Tr.T.InfoComplete() && rng.IntN(8) == 0 {
+		// while the metadata is unknown: a size vote, a complete set of garbage blocks for it (the hash cannot
+		// match), and then stray blocks with and without total_size, for indices inside and beyond that size
+		S := []int64{16385, 40000, 49152, 16384 * 5}[rng.IntN(4)]
+		n := int((S + 16383) / 16384)
+		e := swarm.StdExt0(0, 0)
+		e.MetadataSize = &S
+		b := refwire.Encode(refwire.Msg{Kind: refwire.KExtended, Sub: 0, Data: e.Payload()})
+		blk := func(ix int, ln int, withTotal bool) {
+			m := refwire.Meta{Type: 1, Piece: int64(ix), Data: make([]byte, ln)}
+			for i := range m.Data {
+				m.Data[i] = byte(rng.Uint32())
+			}
+			if withTotal {
+				t64 := S
+				m.TotalSize = &t64
+			}
+			b = append(b, refwire.Encode(refwire.Msg{Kind: refwire.KExtended, Sub: extID("ut_metadata", 2), Data: m.Payload()})...)
+		}
+		for ix := 0; ix < n; ix++ {
+			ln := 16384
+			if ix == n-1 {
+				ln = int(S) - 16384*(n-1)
+			}
+			blk(ix, ln, rng.IntN(4) != 0)
+		}
+		for k := 0; k < 1+rng.IntN(3); k++ {
+			blk(rng.IntN(n+1), []int{16384, 16384, 1, int(S) - 16384*(n-1)}[rng.IntN(4)], rng.IntN(2) == 0)
+		}
+		return hmsg{b, "metadata garbage-set+stray-blocks"}
 	}
 	switch x := rng.IntN(100); {
 	case x < 6:
@@ -448,6 +503,49 @@ func history(t *testing.T, c *vk.C, rng *rand.Rand, i int) map[string]int {
 					return
 				}
 				c.Count("canary_probes", 1)
+			}
+			// the peer vanishes while the torrent is busy and its mailbox is full: the loop is held (answering a
+			// statistics query nobody collects yet), the mailbox is filled to the brim, the peer says one more
+			// thing and closes, timers run, then the loop resumes
+			if rng.IntN(14) == 0 {
+				hold := make(chan *peer.TorStats)
+				posted := false
+				select {
+				case tr.T.Event <- peer.TorGetStats{Ch: hold}:
+					posted = true
+				default:
+				}
+				if posted {
+					sw.Cut()
+					for k := 0; k < 600; k++ {
+						select {
+						case tr.T.Event <- peer.TorAnnounce{IPv6: false}:
+						default:
+							k = 600
+						}
+					}
+					h.SendRaw(hostile(rng, g, h).frame)
+					sw.Cut()
+					h.Close()
+					time.Sleep(time.Duration(rng.IntN(40)) * time.Second)
+					sw.Cut()
+					go func() {
+						select {
+						case <-hold:
+						case <-tr.T.Done:
+						}
+					}()
+					time.Sleep(2 * time.Second)
+					sw.Cut()
+					sw.Act("%s closed while the mailbox was full and the loop held", h.Name)
+					st["close_under_backpressure"]++
+					if !tr.LoopAlive("C05", "after-close-under-backpressure") {
+						return
+					}
+					h = connect()
+					sw.Cut()
+					maxFrame = 0
+				}
 			}
 			// abrupt ends: the peer vanishes, possibly in the middle of a frame or right after connecting
 			if rng.IntN(12) == 0 {
